@@ -35,6 +35,8 @@ pub enum FailClass {
     // --- stated by C10
     Locked,
     Divisibility,
+    /// a composition from the auth zone asks for more than sum over containers of max(proofs on it)
+    CompositionExceedsBase,
     // --- expected to fail, but no property of this crate says so (logged only)
     DanglingEmptyBucket,
     Auth,
@@ -53,7 +55,7 @@ impl FailClass {
         matches!(self, UnknownBucket | UnknownProof | TakeMoreThanPresent | VaultInsufficient | NegativeAmount | AssertionFailed | LeftoverWorktop | DanglingNonEmptyBucket)
     }
     pub fn c10_verdict(&self) -> bool {
-        matches!(self, FailClass::Locked | FailClass::Divisibility)
+        matches!(self, FailClass::Locked | FailClass::Divisibility | FailClass::CompositionExceedsBase)
     }
 }
 
@@ -482,6 +484,43 @@ impl Model {
         base
     }
 
+    /// coverage: in which order do several auth-zone proofs on ONE container appear (by amount)?
+    fn note_composition_shape(&mut self, r: usize) {
+        let mut per: BTreeMap<usize, Vec<BigInt>> = BTreeMap::new();
+        let mut kinds: BTreeSet<bool> = BTreeSet::new();
+        for uid in &self.auth_zone {
+            let p = &self.proof_tab[*uid];
+            kinds.insert(self.res[p.res].fungible);
+            if p.res != r {
+                continue;
+            }
+            for (c, l) in &p.evidence {
+                if let Lock::F(a) = l {
+                    per.entry(*c).or_default().push(a.clone());
+                }
+            }
+        }
+        if kinds.len() > 1 {
+            self.notes.insert("composition-in-mixed-kind-zone");
+        }
+        for v in per.values() {
+            if v.len() < 2 {
+                continue;
+            }
+            let asc = v.windows(2).any(|w| w[0] < w[1]);
+            let desc = v.windows(2).any(|w| w[0] > w[1]);
+            self.notes.insert(match (asc, desc) {
+                (true, false) => "composition-over-ascending-overlap",
+                (false, true) => "composition-over-descending-overlap",
+                (false, false) => "composition-over-equal-overlap",
+                (true, true) => "composition-over-mixed-order-overlap",
+            });
+        }
+        if per.len() > 1 {
+            self.notes.insert("composition-over-several-containers");
+        }
+    }
+
     pub fn step(&mut self, ins: &Ins) -> Result<(), Stop> {
         match ins {
             Ins::LockFee(_) => {
@@ -751,10 +790,21 @@ impl Model {
                 if !info.fungible {
                     return Err(Unknown("amount-based composed proof of non-fungibles"));
                 }
+                // backing available to a composition: per container the MAX of the auth-zone proofs on
+                // it (overlapping proofs lock the maximum, not the sum), summed over distinct containers
                 let avail: BigInt = base.values().map(|l| if let Lock::F(x) = l { x.clone() } else { BigInt::zero() }).sum();
+                self.note_composition_shape(*res);
                 if a > avail {
-                    return Err(Fail(FailClass::NoBaseProofs));
+                    if base.is_empty() {
+                        return Err(Fail(FailClass::NoBaseProofs));
+                    }
+                    self.notes.insert("composition-beyond-max-per-container");
+                    return Err(Fail(FailClass::CompositionExceedsBase));
                 }
+                if a == avail {
+                    self.notes.insert("composition-exactly-max-per-container");
+                }
+                self.notes.insert("composition-within-max-per-container");
                 if a.is_zero() {
                     return Err(Fail(FailClass::EmptyProof));
                 }
@@ -779,7 +829,11 @@ impl Model {
                 let mut ev: BTreeMap<usize, BTreeSet<u64>> = BTreeMap::new();
                 for id in &want {
                     let Some((c, _)) = base.iter().find(|(_, l)| matches!(l, Lock::N(s) if s.contains(id))) else {
-                        return Err(Fail(FailClass::NoBaseProofs));
+                        if base.is_empty() {
+                            return Err(Fail(FailClass::NoBaseProofs));
+                        }
+                        self.notes.insert("composition-beyond-max-per-container");
+                        return Err(Fail(FailClass::CompositionExceedsBase));
                     };
                     ev.entry(*c).or_default().insert(*id);
                 }
@@ -792,6 +846,7 @@ impl Model {
                 Ok(())
             }
             Ins::ProofFromAzAll { res } => {
+                self.note_composition_shape(*res);
                 let base = self.az_base(*res);
                 if base.is_empty() {
                     return Err(Fail(FailClass::EmptyProof));
